@@ -9,8 +9,9 @@ Min2(a, b)  == IF a < b THEN a ELSE b
 Max2(a, b)  == IF a > b THEN a ELSE b
 Clamp(x, lo, hi) == IF x > hi THEN hi ELSE IF x < lo THEN lo ELSE x
 
-RECURSIVE Gcd(_, _)
-Gcd(a, b)   == IF b = 0 THEN Abs(a) ELSE Gcd(b, a % b)
+RECURSIVE GcdN(_, _)
+GcdN(a, b)  == IF b = 0 THEN a ELSE GcdN(b, a % b)              \* a, b >= 0
+Gcd(a, b)   == GcdN(Abs(a), Abs(b))
 
 (* explicit expansions for the common small sizes: TLC interprets recursive function
    definitions slowly (measured 1.2 ms/state before, 0.2 ms after)                    *)
